@@ -342,6 +342,8 @@ def run(tier: str, seed: int) -> Result:
     if tier == 'quick':
         sup = trees(2, TINY, width=2, task_types=('Leaf', 'BLeaf', 'PFoo'), inner_leaves=TINY)
         sup += trees(1, FULL, width=1, task_types=('Leaf',), inner_leaves=FULL)
+        # several distinct nested tasks of a never-cached type (and of a second cache format) in one parameter
+        sup += trees(2, TINY[:2], width=2, task_types=('NoCacheT', 'JFoo'), inner_leaves=TINY[:2])
         protos = (2, 5)
         base_unsup = trees(2, TINY[:2], width=2, task_types=('Leaf',), inner_leaves=TINY[:2])
     else:
@@ -349,6 +351,7 @@ def run(tier: str, seed: int) -> Result:
         sup += trees(3, TINY, width=1, task_types=('Leaf', 'PFoo'), inner_leaves=TINY)
         sup += trees(3, [1], width=2, task_types=('Leaf',), inner_leaves=[1])
         sup += trees(1, FULL, width=2, task_types=('Leaf',), inner_leaves=FULL)
+        sup += trees(2, TINY, width=2, task_types=('NoCacheT', 'JFoo', 'Leaf'), inner_leaves=TINY)
         protos = (0, 1, 2, 3, 4, 5)
         base_unsup = trees(2, TINY[:3], width=2, task_types=('Leaf',), inner_leaves=TINY[:3])
     seen = set()
